@@ -507,6 +507,68 @@ pub fn run(ctx: &mut Ctx) {
             }
         }
     }
+    // many threads render values nobody has rendered before, at the same time (names with characters
+    // outside [A-Za-z0-9_], fresh per thread and step; numbers likewise): what each thread saw goes
+    // through the injectivity monitor, and every value must render to the same text again afterwards
+    if ctx.shard < 4 {
+        let rounds = if ctx.thorough { 8 } else { 1 };
+        for round in 0..rounds {
+            ctx.report.bump("family.fresh-values-on-many-threads");
+            let nthreads = 2 * std::thread::available_parallelism().map(|n| n.get()).unwrap_or(4).clamp(4, 16);
+            let go = std::sync::Arc::new(std::sync::atomic::AtomicBool::new(false));
+            let shard = ctx.shard;
+            let hs: Vec<_> = (0..nthreads)
+                .filter_map(|ti| {
+                    let go = go.clone();
+                    std::thread::Builder::new()
+                        .spawn(move || {
+                            while !go.load(std::sync::atomic::Ordering::Acquire) {
+                                std::thread::yield_now();
+                            }
+                            let mut seen: Vec<(Item, Result<String, String>)> = vec![];
+                            let seps = ['-', '.', '+', 'é', '中', '\'', ':', '~'];
+                            for i in 0..1500usize {
+                                let sep = seps[(i + ti) % seps.len()];
+                                let name = format!("n{}{}{}{}{}{}{}", shard, sep, round, sep, ti, sep, i);
+                                let kind = NAMED_ATOM_KINDS[(i / 8 + ti) % NAMED_ATOM_KINDS.len()];
+                                let atom = TD::atom(kind, &name);
+                                let item = match i % 4 {
+                                    0 | 1 => Item::N(ND::Term(atom)),
+                                    2 => Item::N(ND::Term(TD::comp(Kind::SetExt, vec![atom, TD::word("A")]))),
+                                    _ => Item::Truth(vec![((ti * 1500 + i) as f64 + 0.5) / 1.0e6, 0.25]),
+                                };
+                                let text = item.render();
+                                seen.push((item, text));
+                            }
+                            seen
+                        })
+                        .ok()
+                })
+                .collect();
+            go.store(true, std::sync::atomic::Ordering::Release);
+            for h in hs {
+                let Ok(seen) = h.join() else {
+                    ctx.report.violate("C16|concurrent|thread-died".into(), "a thread rendering fresh values died".into(), J::obj().set("concurrent", true));
+                    continue;
+                };
+                for (item, text) in seen {
+                    // stability: the text a thread saw during the concurrent phase is the text of the value
+                    // (every render builds the value anew, and the members of a set come out in the order of
+                    // that set's own random hasher: the token multiset is what has to be the same)
+                    let again = item.render();
+                    if again.as_ref().map(|t| token_multiset(t)) != text.as_ref().map(|t| token_multiset(t)) {
+                        ctx.report.violate(
+                            "C16|concurrent|unstable".into(),
+                            format!("{} rendered to {:?} while {} threads were rendering, and to {:?} afterwards", item.key(), text, nthreads, again),
+                            J::obj().set("concurrent", true).set("a", item.to_json()),
+                        );
+                        break;
+                    }
+                    mon.observe(ctx, &item, "fresh-values-on-many-threads");
+                }
+            }
+        }
+    }
     ctx.report.note("distinct_texts_in_monitor", mon.seen.len());
     match mon.write_log(&format!("{}/shard-{}.c16", ctx.out_dir, ctx.shard)) {
         Ok(n) => ctx.report.note("texts_logged_for_cross_shard_merge", n),
